@@ -25,12 +25,16 @@ CHECKS = {
          "handlers are never aborted before their deadline; once a channel poll has run at >= D+1ms the handler makes no progress and nothing is sent for it; other requests untouched", "5/C06", "mc"),
  "C08": ("model_checking", "stateless deviation-bounded DFS over peer sequences (fresh/duplicate/reused ids, cancels, eof, channel drop) x completion orders",
          "one offer per request read unless its id is tracked; at most one response per request instance, only after its handler finished and before cancel/drop; every response matches a request read on the channel", "5/C08", "mc"),
+ "C09": ("fault_enumeration", "exhaustive fault-plan enumeration over every transport call of every <=1-deviation base execution (one-shot, sticky, EOF), replayed on the real client dispatch and server channel",
+         "for every base and every k-th poll_ready/start_send/poll_flush/poll_close/poll_next: activity-tagged error, outstanding calls fail with a connection error, per-request send failure contained, nothing hangs, no panic; server stream reports the activity, handlers aborted on drop", "5/C09", "mc"),
  "C10": ("model_checking", "stateless deviation-bounded DFS over handle drops, peer close and abandonment",
          "handle drop / peer close at every step: owed cancels precede the single close, nothing after close, prompt stop on EOF with all calls failing", "5/C10", "mc"),
  "C11": ("model_checking", "stateless deviation-bounded DFS with in-flight/timer accessors after every dispatch poll",
          "tracked count bounded by the configured maximum and by the wire-derived count at every poll; zero entries and zero timers at frozen-clock quiescence once all calls ended, over runs that reuse slots", "5/C11", "mc"),
  "C12": ("model_checking", "stateless deviation-bounded DFS over L in 0..3 x arrivals/cancels/duplicates x completion and write order x sink state against a counting reference model",
          "a request is handed over only below the limit, refused (exactly one WouldBlock reply, never executed) only at the limit, duplicates ignored", "5/C12", "mc"),
+ "C13": ("model_checking", "explicit-state breadth-first search over all event histories of the real MaxChannelsPerKey (replayed from scratch), incl. a listener poll inside the tracker's drop",
+         "every history up to the depth over {arrive a, arrive b, poll, close i, close i with nested poll at the yield point} for n in {1,2} agrees with a per-key counter at every admission decision", "5/C13", "mc"),
  "C14": ("model_checking", "stateless deviation-bounded DFS over three transport flavours with a Sink-contract monitor on the call log",
          "ready-before-send, no write after close/error, no idle with unflushed items, no retry inside one poll, on every execution within the bound", "5/C14", "mc"),
  "C18": ("model_checking", "stateless deviation-bounded DFS with distinct caller trace contexts; wire-level trace oracle",
